@@ -242,9 +242,9 @@ func c15Alias(c *run.C) {
 		case "ParseReader":
 			// the reader hands out its own scratch buffer contents: io.Copy's
 			// buffer is reused between reads, the chunk reader copies into it
-			_, perr = cd.ParseReader(&mon.ChunkReader{Data: doc, Sizes: sizes}, u)
+			_, perr = cd.ParseReader(&mon.ChunkReader{Data: doc, Sizes: sizes, EOFWithData: len(doc)%2 == 1}, u)
 		case "Decoder":
-			d := cd.NewDecoder(&mon.ChunkReader{Data: doc, Sizes: sizes}, gen.Pick(r, []int{1, 3, 16, 64, 4096}), u)
+			d := cd.NewDecoder(&mon.ChunkReader{Data: doc, Sizes: sizes, EOFWithData: len(doc)%2 == 1}, gen.Pick(r, []int{1, 3, 16, 64, 4096}), u)
 			perr = d.Next()
 		default:
 			cp := append([]byte{}, doc...)
@@ -385,7 +385,7 @@ func c15GC(c *run.C) {
 		if err := gotype.Fold(v.Interface(), gce); err != nil {
 			return target, err
 		}
-		_, err = cd.ParseReader(&mon.ChunkReader{Data: w.Buf, Sizes: []int{r.Range(1, 9), r.Range(1, 40)}}, gcm.WithRefs())
+		_, err = cd.ParseReader(&mon.ChunkReader{Data: w.Buf, Sizes: []int{r.Range(1, 9), r.Range(1, 40)}, EOFWithData: len(w.Buf)%2 == 1}, gcm.WithRefs())
 		return target, err
 	}
 	var plain, forced reflect.Value
